@@ -1,6 +1,8 @@
 CONSTANTS
   Tier = "q"
   PointerReceiverMarshaller <- NoDeviation
+  NestingBound = 1000
+  CounterCountsElements = FALSE
   Families <- AllFamilies
 INIT TInit
 NEXT TNext
